@@ -39,12 +39,12 @@ def prepare(tier: str) -> None:
 def describe() -> dict:
     return {
         "rule": (
-            "one evaluation = one group of 1-4 seeded flows (depth <= 4, <= 40 nodes: commands, "
+            "one simulated run = one group of 1-4 seeded flows (depth <= 4, <= 40 nodes: commands, "
             "IfTrue/IfFalse with or_else None / [] / non-empty, For with and without init, While, "
             "Yield, empty loop bodies, trailing ifs/loops, consecutive yields) linearized by the "
             "real code and run as interleaved resumable machines under 3 seeded condition-outcome "
             "tapes each (random p, all-true-until-fuel, alternating, all-false), <= 400 events per "
-            "history, against the structured reference interpreter. distinct = distinct flow "
+            "history, against the structured reference interpreter; one evaluation = one (flow, tape) history compared. distinct = distinct flow "
             "shapes (dump of the linearization with ids erased) having at least one yield or loop."
         ),
         "real": ["yielding.linear.linearize_to_subroutines, linear.dump, yielding.flow",
@@ -419,6 +419,7 @@ def execute(plan: dict) -> dict:
             got, want = m["h"].events, m["ref"].events
             stats["events"] = stats.get("events", 0) + len(got)
             stats["histories"] = stats.get("histories", 0) + 1
+            stats["evaluations"] = stats.get("evaluations", 0) + 1
             h_all.update(repr(got).encode())
             if m["error"]:
                 violations.append({"property": "C26", "class": "invalid-state",
